@@ -120,8 +120,7 @@ class C08(Prop):
         def prog(rank):
             comm = TorchDistributedCommunicator(cap_mb)
             plain = TorchDistributedCommunicator(cap_mb)
-            if comm.bucket_cap_bytes != case['cap_bytes']:
-                raise RuntimeError('harness: capacity conversion')
+            cap_seen = comm.bucket_cap_bytes
             groups = [None]
             for ranks in group_ranks[1:]:
                 groups.append(dist.new_group(ranks))
@@ -147,7 +146,7 @@ class C08(Prop):
                 t = make_tensor(torch, rank, i, c)
                 f = plain.allreduce(t, average=c['average'], group=groups[c['group']], symmetric=c['symmetric'])
                 ref[i] = f.wait() if not isinstance(f, torch.Tensor) else f
-            return {'got': got, 'ref': ref, 'open': len(open_buckets)}
+            return {'got': got, 'ref': ref, 'open': len(open_buckets), 'cap_seen': cap_seen}
 
         res = simdist.Sim(W, case['schedule'], flip_timing=case['flip']).run(prog, timeout=60)
         if res.timed_out:
@@ -161,6 +160,9 @@ class C08(Prop):
             return violation(f'protocol violation {v} (region={region})', region or key, labels=labels)
         for rank in range(W):
             out = res.results[rank]
+            if out['cap_seen'] != case['cap_bytes']:
+                return violation(f'rank {rank}: communicator configured with {cap_mb!r} MB reports bucket_cap_bytes={out["cap_seen"]}, expected {case["cap_bytes"]}',
+                                 'capacity-conversion', labels=labels)
             if out['open']:
                 return violation(f'rank {rank}: {out["open"]} bucket(s) still open after the final flush', 'open-after-flush', labels=labels)
             for i, c in enumerate(calls):
